@@ -340,6 +340,7 @@ class Ctx:
         self.oracle_fail = 0
         self.skips = {}
         self.debug = False
+        self.deferred = []
         self.phase_out = []
         self.debug_rows = []
 
@@ -423,10 +424,12 @@ def _mean_case(cx, key, inp, what, observed, reference, known=None):
     cx.track(what, err, inp)
     if cx.debug and not (err <= 0.03):
         cx.debug_rows.append((what, round(err, 4), inp))
-    clause = MEAN_CLAUSE if known is None else known
-    cx.rep.case(clause, err <= TOL_MEAN, key=key, input=inp,
-                observed={"quantity": what, "value": float(observed), "rel_err": err},
-                expected={"integrated_mean": float(reference), "rtol": TOL_MEAN})
+    kw = dict(key=key, input=inp, observed={"quantity": what, "value": float(observed), "rel_err": err},
+              expected={"integrated_mean": float(reference), "rtol": TOL_MEAN})
+    if known is None:
+        cx.rep.case(MEAN_CLAUSE, err <= TOL_MEAN, **kw)
+    else:  # reported after all generic cases, so that known failures never crowd a new one out of the failure list
+        cx.deferred.append((known, err <= TOL_MEAN, kw))
 
 
 def _phase_case(cx, key, inp, what, observed, reference):
@@ -877,6 +880,8 @@ def run(req, rep):
             invalid += 1
             continue
         FAMS[fam](cx, approx, tuple(float(v) for v in p), tag)
+    for clause, ok, kw in cx.deferred:
+        rep.case(clause, ok, **kw)
     rep.notes.append(f"{invalid} captured tuples outside the precondition (improper cavity) not evaluated; "
                      f"{dropped} cases dropped by the time budget; {cx.oracle_fail} cases where the oracle could not "
                      f"certify its own accuracy (not counted)")
